@@ -66,6 +66,18 @@ def contains(t, sub):
     return False
 
 
+def derives_from(t, origin, p, depth=0):
+    """t contains `origin`, possibly through the arguments of the calls whose results appear in t"""
+    if contains(t, origin):
+        return True
+    if depth > 6 or not isinstance(t, tuple):
+        return False
+    if t and t[0] == "ret" and isinstance(t[1], int) and t[1] < len(p.events):
+        ev = p.events[t[1]]
+        return any(derives_from(a, origin, p, depth + 1) for a in ev.get("args", []))
+    return any(derives_from(x, origin, p, depth + 1) for x in t if isinstance(x, tuple))
+
+
 def chase(t):
     while isinstance(t, tuple) and t and t[0] in ("via", "clone", "cast"):
         t = t[2] if t[0] == "via" else t[1]
@@ -142,7 +154,7 @@ class Ctx:
         return t[0] == "ref" and t[1] == self.input_place[self.cur] + "".join(".%d" % i for i in idx)
 
 
-def ga_scenario(p, ctx, counter=None):
+def ga_scenario(p, ctx, counter=None, strict=False):
     ctx.cur = "ga"
     """request + fault schedule of a get_assertion path; None if the path needs a callee outcome the
     replay doubles cannot force (internal helper failing)"""
@@ -170,9 +182,12 @@ def ga_scenario(p, ctx, counter=None):
         elif k.startswith("(discr (pollres"):
             pass
         elif k.startswith("(discr (ret") and any(x in k for x in ("Option::ok_or", "get_extensions", "set_assertion_extensions", "private_key_from_cose_key")):
-            if v == 1:
+            if v == 1 and strict:
                 return None
-        else:
+        elif k.startswith("(discr (await (ret") and "find_credentials" in k:
+            if v == 1:
+                sc["store"]["find"] = {"err": 0x2E}
+        elif strict:
             return None
     for e in p.events:
         if e["kind"] == "yield":
@@ -227,27 +242,24 @@ def check_get_assertion(paths, ctx, want):
             for i, e in upd:
                 d = await_discr(p, e["ret"])
                 if kind == "Ok" and d != 0:
-                    sc = ga_scenario(p, ctx)
-                    if sc:
-                        sc["store"]["update"] = {"err": 0x28}
+                    sc = with_store_errors(ga_scenario(p, ctx), "update")
                     F.append(Finding("C07", "ga.ok-without-accepted-update", "an assertion is returned on a path where the store's answer to update_credential is not checked",
-                                     sc, lambda o: "ok" in json.dumps(o["result"]) and any(c["call"] == "update" for c in o["log"]), p))
+                                     sc, lambda o: isinstance(o["result"], dict) and "ok" in o["result"] and any(c["call"] == "update" for c in o["log"]), p))
                 if d == 1:
                     want_err = ("errof", ("residual", ("await", e["ret"])), "same")
                     if kind != "Err" or payload != want_err:
-                        sc = ga_scenario(p, ctx)
+                        sc = with_store_errors(ga_scenario(p, ctx), "update")
                         F.append(Finding("C07", "ga.update-error-not-propagated", "update_credential's error is not what get_assertion returns (%s)" % tstr(payload)[:80],
-                                         sc, lambda o: o["result"] != {"err": 0x28}, p))
+                                         sc, lambda o, sc=None: o["result"] != {"err": o["scenario"]["store"]["update"]["err"]}, p))
                 later = [j for j, x in ext + sign if j < i]
                 if later:
                     F.append(Finding("C07", "ga.update-after-signing", "update_credential is issued after extension processing / signing", ga_scenario(p, ctx),
                                      lambda o: True, p))
             # lookup errors surface only after consent
-            if kind == "Err" and payload and contains(payload, "residual") and any("Result::and_then" in tstr(payload) for _ in [0]):
-                if not cu:
-                    sc = ga_scenario(p, ctx)
-                    F.append(Finding("C07", "ga.lookup-error-before-consent", "a lookup error is returned before the consent step", sc,
-                                     lambda o: not any(c["call"] == "check_user" for c in o["log"]) and "err" in o["result"], p))
+            if kind == "Err" and find and not cu and payload is not None and derives_from(payload, ("await", find[0][1]["ret"]), p):
+                sc = ga_scenario(p, ctx)
+                F.append(Finding("C07", "ga.lookup-error-before-consent", "a lookup error is returned before the consent step", sc,
+                                 lambda o: not any(c["call"] == "check_user" for c in o["log"]) and isinstance(o["result"], dict) and "err" in o["result"], p))
 
         if "C04" in want:
             needs_consent = bool(upd or sign or kind == "Ok")
@@ -269,9 +281,17 @@ def check_get_assertion(paths, ctx, want):
                 # depend on the lookup result
                 dep = [k for k, op, v in p.conds if ("Result::and_then" in k or ("find_credentials" in k and "(await" in k))]
                 if dep and find:
-                    sc = ga_scenario(p, ctx)
-                    F.append(Finding("C04", "ga.existence-disclosed-before-consent", "outcome without consent depends on the lookup result: %s" % dep[0][:80], sc,
-                                     None, p))
+                    # two requests that differ only in whether a matching credential exists, consent denied in both
+                    base = ga_scenario(p, ctx)
+                    if base:
+                        base["user"]["outcome"] = {"err": 0x27}
+                        a = json.loads(json.dumps(base)); a["store"]["find"] = {"ok": 1}
+                        b = json.loads(json.dumps(base)); b["store"]["find"] = {"err": 0x2E}
+                        pair = {"pair": [a, b]}
+                    else:
+                        pair = None
+                    F.append(Finding("C04", "ga.existence-disclosed-before-consent", "outcome without consent depends on the lookup result: %s" % dep[0][:80], pair,
+                                     lambda outs: outs[0]["result"] != outs[1]["result"], p))
             if consent_failed:
                 i, e = consent_failed[0]
                 if kind != "Err" or not contains(payload, ("await", e["ret"])):
@@ -286,17 +306,23 @@ def check_get_assertion(paths, ctx, want):
                 if chase(e["args"][1]) != want_flags:
                     F.append(Finding("C04", "ga.flags-not-from-consent", "flags given to the authenticator data are %s, not the consent step's result" % tstr(e["args"][1])[:80],
                                      None, None, p))
-            # credential shown = credential that signs
+            # credential shown = credential that signs = a credential from the lookup
             if cu and find:
-                shown = chase(cu[0][1]["args"][2])
-                at = calls(p, "Result::and_then")
-                if not at:
-                    raise Shape("no and_then on the lookup result")
-                if not contains(shown, at[0][1]["ret"]) and not (shown[0] == "ref"):
+                origin = ("await", find[0][1]["ret"])
+                shown = cu[0][1]["args"][2]
+                shown_t = chase(shown)
+                if shown_t[0] == "ref":
+                    # a reference to the coroutine field holding the lookup result
+                    holder = [e for _, e in env_calls(p) if e["kind"] == "call"]
+                    ok_shown = True
+                else:
+                    ok_shown = derives_from(shown, origin, p) or (shown_t[0] == "ctor" and shown_t[1] == "None")
+                if not ok_shown:
                     F.append(Finding("C04", "ga.consent-for-other-credential", "the credential passed to the consent step does not come from the lookup result", None, None, p))
                 pk = calls(p, "private_key_from_cose_key")
                 for i, e in pk:
-                    if not contains(e["args"][0], at[0][1]["ret"]) and not contains(e["args"][0], "ref"):
+                    a0 = e["args"][0]
+                    if not derives_from(a0, origin, p) and chase(a0)[0] != "ref":
                         F.append(Finding("C04", "ga.signs-with-other-credential", "the signing key does not come from the looked-up credential", None, None, p))
 
         if "C05" in want and find:
@@ -313,6 +339,27 @@ def check_get_assertion(paths, ctx, want):
                 src = chase(fe["args"][0])
                 if not ctx.is_input_ref(src, ctx.ga["allow_list"]):
                     F.append(Finding("C05", "ga.allow-list-source", "the id list given to the store is not the request's allow list", None, None, p))
+
+        if "C09" in want:
+            for i, e in ext:
+                uv_arg = chase(e["args"][3])
+                ok_uv = False
+                if uv_arg[0] == "ret" and uv_arg[2].endswith("contains"):
+                    ce = p.events[uv_arg[1]]
+                    flags_src = chase(ce["args"][0])
+                    # the flags must be the consent step's result (held in a coroutine field) and the bit must be UV
+                    from_consent = cu_ok and (derives_from(flags_src, ("await", cu_ok[0][1]["ret"]), p) or flags_src[0] == "ref")
+                    ok_uv = bool(from_consent) and "UV" in tstr(ce["args"][1])
+                if not ok_uv:
+                    sc = ga_scenario(p, ctx)
+                    if sc:
+                        sc["request"]["uv"] = False
+                        sc["request"]["prf_eval"] = True
+                        sc["user"]["outcome"] = {"ok": [True, True]}
+                        sc["config"] = {"hmac_secret": "uv_only"}
+                        sc["store"]["held"][0]["hmac"] = "uv_only"
+                    F.append(Finding("C09", "ga.ext-uv", "get_extensions is told %s instead of whether the user was actually verified" % tstr(uv_arg)[:80], sc,
+                                     lambda o: o["result"] == {"err": 0x3C}, p))
 
         if "C08" in want:
             for i, e in upd:
@@ -374,7 +421,31 @@ def counter_checks(paths, ctx, solver):
         for k, op, v in p.conds:
             if k.startswith("(discr (proj (ret") and k.endswith("@Ok.0.%d))" % ctx.pk["counter"]):
                 cdiscr = v
+        if res and res[0] == "Ok" and cdiscr is None:
+            # the path never looks at the stored counter's own presence (e.g. it is filtered first):
+            # whether the counter is advanced then depends on something else - try boundary values natively
+            base = ga_scenario(p, ctx)
+            variants = []
+            for c in (0, 1, 7, 2 ** 31, 2 ** 32 - 2):
+                v = json.loads(json.dumps(base))
+                v["store"]["held"][0]["counter"] = c
+                variants.append(v)
+
+            def pred(o):
+                c = o["scenario"]["store"]["held"][0]["counter"]
+                if not (isinstance(o["result"], dict) and "ok" in o["result"]):
+                    return False
+                u = [x for x in o["log"] if x["call"] == "update"]
+                return (not u) or u[0]["counter"] != c + 1 or o["result"]["ok"]["counter"] != c + 1
+            F.append(Finding("C08", "ga.counter-guard", "the decision to advance the counter does not depend on the stored counter's presence alone (%s)" %
+                             "; ".join(k[:60] for k, op, v in p.conds if "filter" in k or "counter" in k)[:120], variants, pred, p))
         if res and res[0] == "Ok":
+            for i, e in upd:
+                if await_discr(p, e["ret"]) != 0:
+                    F.append(Finding("C08", "ga.reported-counter-not-stored", "an assertion reports counter+1 on a path where the store did not accept that value",
+                                     with_store_errors(ga_scenario(p, ctx), "update"),
+                                     lambda o: isinstance(o["result"], dict) and "ok" in o["result"] and o["result"]["ok"]["counter"] != (o.get("held_counters") or [None])[0]
+                                     and any(c["call"] == "update" for c in o["log"]), p))
             if cdiscr == 0 and upd:
                 F.append(Finding("C08", "ga.update-without-counter", "a credential without a counter is written back by an assertion", ga_scenario(p, ctx),
                                  lambda o: any(c["call"] == "update" for c in o["log"]), p))
@@ -429,7 +500,7 @@ def is_old_plus_one(t, p=None):
 
 # ---- make_credential -------------------------------------------------------------------------
 
-def mc_scenario(p, ctx):
+def mc_scenario(p, ctx, strict=False):
     ctx.cur = "mc"
     sc = {"op": "make_credential", "request": {"up": True, "uv": False, "rk": False, "pin_auth": False, "exclude_list": None},
           "store": {"find": {"ok": 0}, "held": [], "capability": "forced", "pending": {}},
@@ -468,15 +539,36 @@ def mc_scenario(p, ctx):
         elif "get_info" in k or "unwrap_or_default" in k:
             # the rk member of get_info().options: false only for a store without discoverable credentials
             sc["store"]["capability"] = "non_discoverable" if v == 0 else "full"
-        elif k.startswith("(discr (ret") and any(x in k for x in ("make_extensions", "set_make_credential_extensions")):
+        elif k.startswith("(discr (ret") and any(x in k for x in ("make_extensions", "set_make_credential_extensions", "make_prf", "calculate_hmac_secret")):
             if v == 1:
-                return None
-        else:
+                if strict:
+                    return None
+                # the one way to make extension processing fail: hmac-secret-mc, prf eval, no user verification
+                sc["config"]["hmac_secret"] = "uv_only_mc"
+                sc["request"]["prf_eval"] = True
+                sc["request"]["uv"] = False
+        elif strict:
             return None
     for e in p.events:
         if e["kind"] == "yield":
             sc["store"]["pending"]["save"] = 1
     return sc
+
+
+STORE_ERROR_CODES = (0x28, 0x7F, 0x01, 0xE0, 0xF0)
+
+
+def with_store_errors(sc, op):
+    """variants of a scenario in which store call `op` fails with status bytes of every class
+    (CTAP2 known, CTAP1, extension, vendor)"""
+    if sc is None:
+        return None
+    out = []
+    for code in STORE_ERROR_CODES:
+        v = json.loads(json.dumps(sc))
+        v["store"][op] = {"err": code}
+        out.append(v)
+    return out
 
 
 def check_make_credential(paths, ctx, want):
@@ -540,19 +632,26 @@ def check_make_credential(paths, ctx, want):
             for i, e in save:
                 d = await_discr(p, e["ret"])
                 if kind == "Ok" and d != 0:
-                    sc = mc_scenario(p, ctx)
-                    if sc:
-                        sc["store"]["save"] = {"err": 0x28}
+                    sc = with_store_errors(mc_scenario(p, ctx), "save")
                     F.append(Finding("C07", "mc.ok-without-accepted-save", "a registration succeeds on a path where the store's answer to save_credential is not checked", sc,
-                                     lambda o: "ok" in json.dumps(o["result"]) and o.get("held_after", 0) == 0, p))
+                                     lambda o: isinstance(o["result"], dict) and "ok" in o["result"] and o.get("held_after", 0) == 0, p))
                 if d == 1 and (kind != "Err" or payload != ("errof", ("residual", ("await", e["ret"])), "same")):
-                    F.append(Finding("C07", "mc.save-error-not-propagated", "save_credential's error is not what make_credential returns (%s)" % tstr(payload)[:80], mc_scenario(p, ctx),
-                                     lambda o: o["result"] != {"err": 0x28}, p))
+                    F.append(Finding("C07", "mc.save-error-not-propagated", "save_credential's error is not what make_credential returns (%s)" % tstr(payload)[:80],
+                                     with_store_errors(mc_scenario(p, ctx), "save"),
+                                     lambda o: o["result"] != {"err": o["scenario"]["store"]["save"]["err"]}, p))
                 # nothing fallible after the save: no later branch on a call result
                 later = [x for x in p.events[i + 1:] if x["kind"] == "branch" and ("ret" in tstr(x["on"]) or "await" in tstr(x["on"]))
                          and not tstr(x["on"]).startswith("(discr (pollres") and not contains(x["on"], e["ret"])]
                 if later:
-                    F.append(Finding("C07", "mc.fallible-after-save", "a fallible step (%s) follows save_credential" % tstr(later[0]["on"])[:80], mc_scenario(p, ctx), None, p))
+                    lp = [q for q in paths if q.conds[:len(p.conds)] != p.conds]
+                    fail_sc = None
+                    for q in paths:
+                        # a sibling path on which that later step fails
+                        if any(k == tstr(later[0]["on"]) and v == 1 for k, op, v in q.conds) and calls(q, "CredentialStore::save_credential"):
+                            fail_sc = mc_scenario(q, ctx)
+                            break
+                    F.append(Finding("C07", "mc.fallible-after-save", "a fallible step (%s) follows save_credential" % tstr(later[0]["on"])[:80], fail_sc or mc_scenario(p, ctx),
+                                     lambda o: isinstance(o["result"], dict) and "err" in o["result"] and o.get("held_after", 0) > 0, p))
             if kind == "Err" and muts and all(await_discr(p, e["ret"]) == 0 for _, e in save):
                 F.append(Finding("C07", "mc.error-after-save", "registration returns an error after the credential was saved", mc_scenario(p, ctx),
                                  lambda o: "err" in o["result"] and o.get("held_after", 0) > 0, p))
@@ -650,3 +749,183 @@ def check_forwarding(fn_paths, method, ctx):
         if others:
             F.append(Finding("C18", "trait.%s.extra-effects" % method, "the trait method touches the store / user validation itself: %s" % [x["callee"] for x in others], None, None, p))
     return F
+
+
+# ---- shipped stores: the documented lookup contract (C05) ----------------------------------------
+
+def _closure_fn(fns, closure_term):
+    """MIR function of a closure value ('closure', '{closure@file:l:c:') -> fn"""
+    m = re.match(r"\{closure@([^ ]+)", closure_term[1])
+    if not m:
+        return None
+    loc = m.group(1).rstrip(":")
+    for n, f in fns.items():
+        if ("{closure@" + loc) in f.sig.split(")")[0] and f.sig.startswith("fn ") and re.search(r"\(_1: &?(?:mut )?\{closure@" + re.escape(loc), f.sig):
+            return f
+    return None
+
+
+def _closures_in(p):
+    out = []
+    for e in p.events:
+        if e["kind"] != "call":
+            continue
+        for a in e["args"]:
+            a = chase(a)
+            if isinstance(a, tuple) and a and a[0] == "closure":
+                out.append((e["callee"], a))
+    return out
+
+
+def _predicate_facts(fn, ctx, solver):
+    """for a `-> bool` closure over a &Passkey: which equalities its truth implies.
+    -> {'rp': bool, 'id': bool} (True = the closure returns true only if that comparison holds)"""
+    from .executor import Executor
+    ex = Executor(fn, follow_yields=False)
+    ps = ex.run()
+    atoms = {}   # ret term str -> kind
+    # locals that merely hold (a deref of) the closure's Passkey parameter `_2`
+    alias = {}
+    for b in fn.blocks.values():
+        for st in b.stmts:
+            m = re.match(r"^(_\d+) = (?:no_retag )?(?:copy|move) (\(\*_2\)|_2)$", st)
+            if m:
+                alias[m.group(1)] = "_2^" if m.group(2).startswith("(") else "_2"
+    rp_names = [d for n, d in fn.debug.items() if n.lstrip("_") == "rp_id"]
+    id_names = [d for n, d in fn.debug.items() if n in ("id", "ids", "allow_credentials")]
+    disj = []
+    for p in ps:
+        if p.end and p.end[0] == "unsupported":
+            raise Shape("unsupported MIR in store predicate: " + p.end[1][:120])
+        if not p.end or p.end[0] != "return":
+            continue
+        lits = []
+        for i, e in enumerate(p.events):
+            if e["kind"] == "call" and (e["callee"].endswith("::eq") or e["callee"].endswith("::ne")):
+                kind = None
+                places = [chase(a) for a in e["args"]]
+                txt = " ".join(tstr(x) for x in places)
+                pk_field = None
+                for x in places:
+                    if x[0] == "ref":
+                        pl = x[1]
+                        mh = re.match(r"^(_\d+)(.*)$", pl)
+                        if mh and mh.group(1) in alias:
+                            pl = alias[mh.group(1)] + mh.group(2)
+                        m = re.match(r"^_2\^+\.(\d+)$", pl)
+                        if m:
+                            pk_field = int(m.group(1))
+                if pk_field == ctx.pk["rp_id"] and any(any(dd.rstrip("^") in txt for dd in d) for d in rp_names):
+                    kind = "rp"
+                elif pk_field == ctx.pk["credential_id"]:
+                    kind = "id"
+                if kind:
+                    atoms[tstr(e["ret"])] = (kind, e["callee"].endswith("::ne"))
+        ret = p.end[1]
+        conj = []
+        for k, op, v in p.conds:
+            if k in atoms and op == "==":
+                conj.append((k, bool(v)))
+            elif k in atoms:
+                raise Shape("non-boolean constraint on an equality result")
+        if ret[0] == "const":
+            if ret[1] == "false":
+                continue
+            if ret[1] != "true":
+                raise Shape("store predicate returns %s" % tstr(ret))
+        elif tstr(ret) in atoms:
+            conj.append((tstr(ret), True))
+        elif ret[0] == "not" and tstr(ret[1]) in atoms:
+            conj.append((tstr(ret[1]), False))
+        else:
+            # returns something that is not one of the recognised comparisons: it may be true freely
+            pass
+        disj.append(conj)
+    names = {k: "a%d" % i for i, k in enumerate(atoms)}
+    decls = ["(declare-const %s Bool)" % v for v in names.values()] + ["(declare-const rp_eq Bool)", "(declare-const id_eq Bool)"]
+    link = []
+    for k, (kind, neg) in atoms.items():
+        target = "rp_eq" if kind == "rp" else "id_eq"
+        link.append("(= %s %s)" % (names[k], ("(not %s)" % target) if neg else target))
+    P = "(or false %s)" % " ".join("(and true %s)" % " ".join(names[k] if val else "(not %s)" % names[k] for k, val in c) for c in disj)
+    facts = {}
+    for what in ("rp", "id"):
+        verdict, _ = solver.check(decls, link + [P, "(not %s_eq)" % what])
+        if verdict not in ("sat", "unsat"):
+            raise Shape("solver answered %s on a store-predicate query" % verdict)
+        facts[what] = verdict == "unsat"
+    return facts
+
+
+def check_store_contract(fns, ctx, solver, store_kind):
+    """the async block of `<Store as CredentialStore>::find_credentials` and its closures"""
+    from .executor import Executor
+    self_ty = "&Option<Passkey>" if store_kind == "option" else "&HashMap<Vec<u8>, Passkey>"
+    outer = [f for n, f in fns.items() if "credential_store::<impl" in n and n.endswith("::find_credentials") and ("_1: " + self_ty) in f.sig]
+    if len(outer) != 1:
+        raise Shape("cannot identify find_credentials of the %s store (%d candidates)" % (store_kind, len(outer)))
+    blk = fns.get(outer[0].name + "::{closure#0}")
+    if blk is None:
+        raise Shape("no async block for %s" % outer[0].name[:80])
+    ex = Executor(blk)
+    ps = [p for p in ex.run() if p.end and p.end[0] == "return" and p.end[1][0] == "ctor" and p.end[1][1] == "Ready"]
+    if not ps:
+        raise Shape("no completing path in the %s store's find_credentials" % store_kind)
+    F = []
+    queries = 0
+    seen = {"some": False, "none": False}
+    for p in ps:
+        # which case: ids present or absent (discriminant of the captured Option<&[..]>)
+        case = None
+        for k, op, v in p.conds:
+            if k.startswith("(discr (proj (in _1.0) ^.1") and op == "==":
+                case = "some" if v == 1 else "none"
+        if case is None:
+            # a path that does not look at `ids` at all (iterator over Option::into_iter): treat as both
+            case = "both"
+        # predicates reachable from this path (through non-bool closures as well)
+        facts = {"rp": False, "id": False}
+        work = [c for _, c in _closures_in(p)]
+        done = set()
+        while work:
+            c = work.pop()
+            if c[1] in done:
+                continue
+            done.add(c[1])
+            f = _closure_fn(fns, c)
+            if f is None:
+                continue
+            if f.sig.rstrip().endswith("-> bool {"):
+                fx = _predicate_facts(f, ctx, solver)
+                queries += 2
+                facts = {k: facts[k] or fx[k] for k in facts}
+            else:
+                sub = Executor(f, follow_yields=False).run()
+                for q in sub:
+                    work += [cc for _, cc in _closures_in(q)]
+        if case == "both":
+            # one path for both cases: if what is returned is produced by iterating the id list itself,
+            # an absent list can never find the RP's credentials
+            ids_term = ("proj", ("in", "_1.0"), "^.1")
+            src = [e for e in p.events if e["kind"] == "call" and e["callee"].endswith("into_iter") and any(contains(a, ids_term) for a in e["args"])]
+            if src:
+                sc = {"op": "store_find", "store_kind": store_kind, "stored_rp": "a.example", "query_rp": "a.example", "ids": None}
+                F.append(Finding("C05", "store.%s.absent-list-finds-nothing" % store_kind,
+                                 "the lookup iterates the id list only: with an absent list the credentials of the RP are never found", sc,
+                                 lambda o: isinstance(o["result"], dict) and "err" in o["result"], p))
+        for cs in (("some", "none") if case == "both" else (case,)):
+            seen[cs] = True
+            if cs == "none" and case == "both":
+                continue
+            if not facts["rp"]:
+                sc = {"op": "store_find", "store_kind": store_kind, "stored_rp": "a.example", "query_rp": "b.example",
+                      "ids": "match" if cs == "some" else None}
+                F.append(Finding("C05", "store.%s.rp-id-ignored.%s" % (store_kind, cs),
+                                 "the %s store's lookup (id list %s) never requires the stored credential's rp_id to equal the requested one" %
+                                 ("Option<Passkey>" if store_kind == "option" else "MemoryStore", "present" if cs == "some" else "absent"),
+                                 sc, lambda o: isinstance(o["result"], dict) and o["result"].get("ok", 0) > 0, p))
+            if cs == "some" and store_kind == "option" and not facts["id"]:
+                sc = {"op": "store_find", "store_kind": store_kind, "stored_rp": "a.example", "query_rp": "a.example", "ids": "other"}
+                F.append(Finding("C05", "store.%s.id-ignored" % store_kind, "the lookup with an id list does not require the credential id to be listed", sc,
+                                 lambda o: isinstance(o["result"], dict) and o["result"].get("ok", 0) > 0, p))
+    return F, queries, len(ps)
